@@ -205,7 +205,12 @@ var entries = []entryPoint{
 
 func evalAll(d *refmodel.Datum, fam map[string]*int64, onFail func(ep entryPoint, dl delivery, clause, detail string)) {
 	for _, ep := range entries {
-		for _, dl := range ep.dls {
+		dls := ep.dls
+		if d.T.Depth() >= 3 {
+			// depth-3 signatures (thorough tier): the sentinel delivery only
+			dls = dls[:1]
+		}
+		for _, dl := range dls {
 			clause, detail := ep.eval(d, dl)
 			if fam != nil {
 				run.Eval(fam[ep.name], 1)
@@ -251,7 +256,7 @@ func report(d *refmodel.Datum, ep entryPoint, dl delivery, clause string) {
 }
 
 func main() {
-	run = enum.NewRun("C03", 40*time.Second, 8*time.Minute)
+	run = enum.NewRun("C03", 40*time.Second, 9*time.Minute)
 	depth := 2
 	if run.Thorough() {
 		depth = 3
@@ -269,7 +274,7 @@ func main() {
 
 	finish := func() int {
 		rule := "every signature of Sig(D,2) (outer atoms c C w W i I l L f d b s m o, plus v alone; inner atoms i s b m C; map keys c C w W i I l L b s / i s C; tuples and structs of width <= 2 with at most one composite member) " +
-			"x every datum of Val(sig) x 3 entry points (reflect-encode; sigreader and reflect-decode each under 2 deliveries: sentinel follows/unfragmented, separate EOF/1 byte per read); " +
+			"x every datum of Val(sig) x 3 entry points (reflect-encode; sigreader and reflect-decode each under 2 deliveries: sentinel follows/unfragmented, separate EOF/1 byte per read - depth-3 signatures under the first delivery only); " +
 			"evaluations counts (datum, entry point, delivery) executions. A case class is (signature shape with struct names dropped, entry point, outcome); distinct_nontrivial counts the distinct classes executed"
 		mu.Lock()
 		mm := append([]string(nil), mismatches...)
